@@ -107,6 +107,9 @@ def run(v, tier, seed):
             samples.append({"kind": "first lines of a recorded execution validated by TLC", "sockets": s, "lines": first})
             for r in rows:
                 if r.get("summary"): continue
+                if r.get("monitor_drift"):
+                    v.drift += 1
+                    vlib.log("DRIFT property=C11 random schedule (seed %s): the code's own events disagree with what was sent and handled through the public API: %s" % (r.get("seed"), "; ".join(r["monitor_drift"])[:300]))
                 if r.get("violations"): v.violation("random schedule (%s signalling): %s" % ("socket" if s else "wait-condition", "; ".join(r["violations"])), r, tag="explore%d" % int(s))
             if other:
                 v.violation("recorded execution violates %s of ThreadImpl (trace %s)" % (other, tr), {"trace": tr, "invariant": other}, tag="trace%d" % int(s))
